@@ -31,12 +31,14 @@ structure ChkRec where
   mod : Nat
   pos : Nat
 
-/-- a service worker goroutine back at the head of its restart loop (`late` = its function returned while the stop
-    flag was set) -/
+/-- a service worker goroutine between two runs of its function: back at the head of its restart loop (`late` = its
+    function returned while the stop flag was set), or — `bk = some g` — waiting in the back-off select on the `Done()`
+    channel of the module's context number `g` -/
 structure SwRec where
   gid : Nat
   mod : Nat
   late : Bool
+  bk : Option Nat := none
 
 structure DS where
   sys : Sys
@@ -106,10 +108,10 @@ def moveChk (g i pos : Nat) (pos' : Option Nat) : List ChkRec → List ChkRec
 /-- program order of one goroutine inside `checkIfStopComplete`: (position before, position after; `none` = left).
     0 pending, 1 fast path passed, 2 lock held, 3 flag read, 4 ctrl read, 5 workers read, 6 tasks read,
     7 microtasks read, 8 CAS won, 9 done (about to unlock). -/
-def takeSw (g i : Nat) : List SwRec → Option (Bool × List SwRec)
+def takeSw (g i : Nat) : List SwRec → Option (SwRec × List SwRec)
   | [] => none
   | r :: rs =>
-    if r.gid = g ∧ r.mod = i then some (r.late, rs)
+    if r.gid = g ∧ r.mod = i then some (r, rs)
     else match takeSw g i rs with
       | some (b, rs') => some (b, r :: rs')
       | none => none
@@ -128,6 +130,42 @@ def checkPos : Act → Option (Nat × Option Nat)
   | _ => none
 
 def modFlag (S : Sys) (i : Nat) : Nat := (S.mods.getD i PB.StopProto.init).flag
+
+def modGen (S : Sys) (i : Nat) : Nat := (S.mods.getD i PB.StopProto.init).gen
+
+/-- The back-off timer is not observable. Just before the stop flag of module `i` is set, the timers of all its
+    waiters are taken to have fired (`swTimer`, always enabled): a waiter at the loop head that arrived while the flag
+    was clear may still re-run or leave, which covers everything a waiter can be seen doing later; a waiter that
+    enters the back-off after the flag was set stays a waiter and can only be seen leaving. -/
+def fireTimers (i : Nat) : Sys → List SwRec → Option (Sys × List SwRec)
+  | S, [] => some (S, [])
+  | S, r :: rs =>
+    match r.bk with
+    | some g =>
+      if r.mod = i then
+        match sstep S (.mod i (.swTimer g)) with
+        | none => none
+        | some S1 =>
+          match fireTimers i S1 rs with
+          | none => none
+          | some (S2, rs') => some (S2, { r with bk := none, late := false } :: rs')
+      else
+        match fireTimers i S rs with
+        | none => none
+        | some (S2, rs') => some (S2, r :: rs')
+    | none =>
+      match fireTimers i S rs with
+      | none => none
+      | some (S2, rs') => some (S2, r :: rs')
+
+/-- a waiter leaves the back-off towards the loop head (its timer fired just now) -/
+def timerNow (S : Sys) (i : Nat) (r : SwRec) : Option (Sys × SwRec) :=
+  match r.bk with
+  | none => some (S, r)
+  | some g =>
+    match sstep S (.mod i (.swTimer g)) with
+    | none => none
+    | some S1 => some (S1, { r with bk := none, late := modFlag S i == 1 })
 
 /-- one `e` event -/
 def doEvent (d : DS) (i : Nat) (act : String) (args : List String) (g : Nat) : Except String DS := do
@@ -153,21 +191,44 @@ def doEvent (d : DS) (i : Nat) (act : String) (args : List String) (g : Nat) : E
         -- a service worker leaving its restart loop
         let (sys1, sws1) ← (match takeSw g i d.sws with
           | none => (.ok (d.sys, d.sws) : Except String (Sys × List SwRec))
-          | some (late, sws') =>
-            match sstep d.sys (.mod i (.swExit late)) with
+          | some (r, sws') =>
+            -- a waiter in the back-off: through `<-m.Ctx.Done()` if the model has that context cancelled …
+            match (match r.bk with
+                   | some gn => sstep d.sys (.mod i (.swCtxDone gn))
+                   | none => none) with
             | some S1 => .ok (S1, sws')
-            | none => .error "dec: service worker exit not enabled")
+            | none =>
+              -- … else its timer fired and the head of the loop was left
+              match timerNow d.sys i r with
+              | none => .error "dec: back-off timer not enabled"
+              | some (S0, r0) =>
+                match sstep S0 (.mod i (.swExit r0.late)) with
+                | some S1 => .ok (S1, sws')
+                | none => .error "dec: service worker exit not enabled")
         match sstep sys1 (.mod i (.dec kd (!isNew))) with
         | none => .error "dec: not enabled"
         | some S' =>
           pure { d with sys := S', items := items', sws := sws1, chks := { gid := g, mod := i, pos := 0 } :: d.chks }
   | "sFlag", _ =>
-    let S' ← stepSys .sFlag
-    pure { d with sys := S', items := d.items.map (fun r => if r.mod = i then { r with isNew := false } else r) }
-  | "swReturn", _ =>
+    match fireTimers i d.sys d.sws with
+    | none => .error "sFlag: back-off timer not enabled"
+    | some (S0, sws0) =>
+      match sstep S0 (.mod i .sFlag) with
+      | none => .error "sFlag: not enabled"
+      | some S' =>
+        pure { d with sys := S', sws := sws0,
+                      items := d.items.map (fun r => if r.mod = i then { r with isNew := false } else r) }
+  | "swReturn", rest =>
     let late := modFlag d.sys i == 1
     let S' ← stepSys .swReturn
-    pure { d with sys := S', sws := { gid := g, mod := i, late := late } :: d.sws }
+    -- `cls=b`: the function ended with an error other than nil / context.Canceled / ErrRestartNow or panicked: the
+    -- back-off wait is entered (on the module's current context)
+    if rest.contains "cls=b" then
+      match sstep S' (.mod i (.swBackoff late)) with
+      | none => .error "swReturn: back-off not enabled"
+      | some S2 => pure { d with sys := S2, sws := { gid := g, mod := i, late := late, bk := some (modGen S' i) } :: d.sws }
+    else
+      pure { d with sys := S', sws := { gid := g, mod := i, late := late } :: d.sws }
   | "workEnter", c :: rest =>
     match parseBool c, parseGen rest with
     | none, _ => .error "workEnter: bad flag"
@@ -179,15 +240,20 @@ def doEvent (d : DS) (i : Nat) (act : String) (args : List String) (g : Nat) : E
         match sstep d.sys (.mod i (.workEnter gn cb)) with
         | some S' => pure { d with sys := S' }
         | none => .error s!"workEnter: context {gn} observed cancelled={cb}: not what the model has"
-      | some (late, sws') =>
-        if late then .error "workEnter: service worker re-run although its function returned while the module was stopping"
-        else
-          match sstep d.sys (.mod i .swRerun) with
-          | none => .error "workEnter: service worker re-run not enabled"
-          | some S1 =>
-            match sstep S1 (.mod i (.workEnter gn cb)) with
-            | none => .error s!"workEnter: context {gn} observed cancelled={cb}: not what the model has"
-            | some S' => pure { d with sys := S', sws := sws' }
+      | some (r, sws') =>
+        match timerNow d.sys i r with
+        | none => .error "workEnter: back-off timer not enabled"
+        | some (S0, r0) =>
+          if r0.late then
+            .error (if r.bk.isSome then "workEnter: service worker re-run although its back-off ended while the module was stopping"
+                    else "workEnter: service worker re-run although its function returned while the module was stopping")
+          else
+            match sstep S0 (.mod i .swRerun) with
+            | none => .error "workEnter: service worker re-run not enabled"
+            | some S1 =>
+              match sstep S1 (.mod i (.workEnter gn cb)) with
+              | none => .error s!"workEnter: context {gn} observed cancelled={cb}: not what the model has"
+              | some S' => pure { d with sys := S', sws := sws' }
   | "ctxObs", c :: rest =>
     match parseBool c, parseGen rest with
     | none, _ => .error "ctxObs: bad flag"
